@@ -230,6 +230,38 @@ static void recompute_reachability(void) {
 
 static int use_paddr;
 
+/* A container reaches its element types in three ways: constructed with them; constructed with leaf types (Int, Float,
+** String elements that hold no reference), filled, and then re-typed by assign from an empty container of the wanted
+** types; or obtained by copy of such an empty container.  Whatever a container remembers about its first element type
+** must not survive the assignment: from then on it holds references. */
+static long born_counter;
+static var new_container(int kind, int how) {
+  static var tmpl[NK_COUNT];
+  var T = (kind == NK_ARR_REF || kind == NK_ARR_EMB) ? Array : kind == NK_LIST_REF ? List : (kind == NK_TAB_INT_REF || kind == NK_TAB_REF_REF) ? Table : Tree;
+  var K1 = (kind == NK_TAB_REF_REF || kind == NK_TREE_REF_REF) ? Ref : Int;
+  var E = kind == NK_ARR_EMB ? PEmb : Ref;
+  int is_seq = T == Array || T == List;
+  if (how == 0) { return is_seq ? new_with(T, tuple(E)) : new_with(T, tuple(K1, Ref)); }
+  if (tmpl[kind] == NULL) { tmpl[kind] = is_seq ? new_raw_with(T, tuple(E)) : new_raw_with(T, tuple(K1, Ref)); }
+  if (how == 2) { vh_count("containers_obtained_by_copy"); return copy(tmpl[kind]); }
+  var p;
+  static var LEAF[3]; LEAF[0] = Int; LEAF[1] = Float; LEAF[2] = String;
+  var L = LEAF[born_counter / 3 % 3];
+  if (is_seq) {
+    p = new_with(T, tuple(L));
+    for (int i = 0; i < (int)(born_counter % 5); i++) { push(p, L == Int ? (var)$I(i) : L == Float ? (var)$F(i) : (var)$S("leaf")); }
+  } else {
+    p = new_with(T, tuple(L, L));
+    for (int i = 0; i < (int)(born_counter % 5); i++) {
+      char kb[16]; snprintf(kb, sizeof kb, "k%d", i);
+      if (L == Int) { set(p, $I(i), $I(i)); } else if (L == Float) { set(p, $F(i), $F(i)); } else { set(p, $S(kb), $S("leaf")); }
+    }
+  }
+  assign(p, tmpl[kind]);
+  vh_count("containers_retyped_by_assign");
+  return p;
+}
+
 static int alloc_node(int kind, int as_root) {
   var p = NULL;
   int64_t id = 0;
@@ -239,13 +271,8 @@ static int alloc_node(int kind, int as_root) {
     case NK_PMARK: id = next_id++; p = new(PMark, $I(id)); break;
     case NK_PADDR: id = next_id++; p = new(PAddr, $I(id)); break;
     case NK_REF: p = new(Ref); break;
-    case NK_ARR_REF: p = new(Array, Ref); break;
-    case NK_LIST_REF: p = new(List, Ref); break;
-    case NK_ARR_EMB: p = new(Array, PEmb); break;
-    case NK_TAB_INT_REF: p = new(Table, Int, Ref); break;
-    case NK_TAB_REF_REF: p = new(Table, Ref, Ref); break;
-    case NK_TREE_INT_REF: p = new(Tree, Int, Ref); break;
-    case NK_TREE_REF_REF: p = new(Tree, Ref, Ref); break;
+    case NK_ARR_REF: case NK_LIST_REF: case NK_ARR_EMB: case NK_TAB_INT_REF: case NK_TAB_REF_REF: case NK_TREE_INT_REF: case NK_TREE_REF_REF:
+      p = new_container(kind, (int)(born_counter++ % 3)); break;
     case NK_TUPLE: p = new(Tuple); break;
     case NK_THREAD:
       /* half of them are clones: copy of an (unstarted) Thread object takes over a copy of its storage table */
